@@ -252,4 +252,68 @@ theorem lookup_cnt {k v : Str} : ∀ {opts : List (Str × Str)}, lookup k opts =
       · simp only [h7, decide_false, Bool.false_eq_true, if_false]
         split <;> omega
 
+/-! ### literal sections and the full location string -/
+
+/-- the glob tokens of a text without glob characters -/
+def litToks (s : Str) : List GTok := s.map GTok.lit
+
+theorem gmatch_lits : ∀ (s l : Str), gmatch (litToks s) l = true ↔ l = s
+  | [], l => by cases l <;> simp [litToks, gmatch]
+  | c :: s, [] => by simp [litToks, gmatch]
+  | c :: s, x :: l => by
+    have ih := gmatch_lits s l
+    simp only [litToks, List.map_cons, gmatch, Bool.and_eq_true, beq_iff_eq, List.cons.injEq] at ih ⊢
+    rw [ih]
+
+theorem compsMatch_cons (l : Str) (ls : List Str) (s : List GTok) (ss : List (List GTok)) :
+    compsMatch (l :: ls) (s :: ss) = (gmatch s l && compsMatch ls ss) := by
+  simp only [compsMatch, List.length_cons, List.zip_cons_cons, List.all_cons]
+  by_cases hlen : ss.length ≤ ls.length
+  · have h1 : ss.length + 1 ≤ ls.length + 1 := by omega
+    simp [hlen, h1]
+  · have h1 : ¬ ss.length + 1 ≤ ls.length + 1 := by omega
+    simp [hlen, h1]
+
+/-- a section whose components are literal matches iff they are a prefix of the location's components -/
+theorem compsMatch_lits : ∀ (ps loc : List Str), compsMatch loc (ps.map litToks) = true ↔ ps <+: loc
+  | [], loc => by simp [compsMatch]
+  | p :: ps, [] => by simp [compsMatch]
+  | p :: ps, l :: ls => by
+    rw [List.map_cons, compsMatch_cons, Bool.and_eq_true, gmatch_lits, compsMatch_lits ps ls, List.cons_prefix_cons]
+    constructor
+    · rintro ⟨h1, h2⟩; exact ⟨h1.symm, h2⟩
+    · rintro ⟨h1, h2⟩; exact ⟨h1.symm, h2⟩
+
+theorem splitSlash_append : ∀ (a b : Str), splitSlash (a ++ '/' :: b) = splitSlash a ++ splitSlash b
+  | [], b => by simp [splitSlash]
+  | c :: a, b => by
+    have ih := splitSlash_append a b
+    simp only [List.cons_append, splitSlash]
+    by_cases hc : c = '/'
+    · simp [hc, ih]
+    · have : (c == '/') = false := by simpa using hc
+      simp only [this, Bool.false_eq_true, if_false, ih]
+      cases hsp : splitSlash a with
+      | nil => exact absurd hsp (splitSlash_ne_nil a)
+      | cons p ps => simp
+
+theorem splitSlash_noslash : ∀ (s : Str), '/' ∉ s → splitSlash s = [s]
+  | [], _ => rfl
+  | c :: s, h => by
+    have hc : (c == '/') = false := by simpa using fun e : c = '/' => h (by simp [e])
+    have ih := splitSlash_noslash s (fun m => h (List.mem_cons_of_mem _ m))
+    simp [splitSlash, hc, ih]
+
+theorem rstripSlash_concat (s : Str) (l : Char) (hl : l ≠ '/') : rstripSlash (s ++ [l]) = s ++ [l] := by
+  have : (l == '/') = false := by simpa using hl
+  simp [rstripSlash, List.dropWhile_cons, this]
+
+theorem glex_literal : ∀ (s : Str), (∀ c ∈ s, c ≠ '[' ∧ c ≠ ']' ∧ c ≠ '*' ∧ c ≠ '?') →
+    glex none s = some (litToks s)
+  | [], _ => rfl
+  | c :: s, h => by
+    obtain ⟨h1, h2, h3, h4⟩ := h c (by simp)
+    have ih := glex_literal s (fun d hd => h d (List.mem_cons_of_mem _ hd))
+    simp [glex, h1, h2, h3, h4, ih, litToks]
+
 end BreezyVerif.C49
